@@ -284,4 +284,21 @@ theorem matchOld_far_counterexample :
 
 example : jmatch (gridTime (1 / 10) 5) (gridTime (1 / 10) 5) (1 / 10) = true := by decide +kernel
 
+/-- **C14.2 (firing indices)**  on the grid `t_0 … t_{n-1}` the indices at which `has_scheduled_jump` is true — the list the
+    pipeline tie feeds into the trace model — are exactly the scheduled indices below `n`, in increasing order -/
+theorem firing_grid (dt : Rat) (hdt : 0 < dt) (ms : List Nat) (n : Nat) :
+    firing (ms.map (gridTime dt)) ((List.range n).map (gridTime dt)) dt = (List.range n).filter (fun k => decide (k ∈ ms)) := by
+  unfold firing
+  rw [List.length_map, List.length_range]
+  apply List.filter_congr
+  intro k hk
+  have hk' : k < n := List.mem_range.mp hk
+  have : ((List.range n).map (gridTime dt))[k]? = some (gridTime dt k) := by
+    simp [hk']
+  rw [this]
+  exact hasJump_grid dt hdt ms k
+
+example : firing ([2, 2, 0].map (gridTime (1/10))) ((List.range 4).map (gridTime (1/10))) (1/10) = [0, 2] := by
+  decide +kernel
+
 end Yaqs.SJump
